@@ -407,7 +407,7 @@ func x04FreeAddrs(n int) ([]string, error) {
 	}()
 	rng := mrand.New(mrand.NewSource(time.Now().UnixNano() ^ int64(os.Getpid())<<20))
 	for tries := 0; len(out) < n && tries < 50*n; tries++ {
-		addr := fmt.Sprintf("127.0.0.1:%d", 10000+rng.Intn(10000))
+		addr := fmt.Sprintf("127.0.0.1:%d", verifx.EnvInt("X04_PORT_BASE", 10000)+rng.Intn(5000))
 		ln, err := net.Listen("tcp", addr)
 		if err != nil {
 			continue
